@@ -1,0 +1,81 @@
+//go:build verif
+
+package list
+
+// This file is compiled only with the build tag "verif".
+// It gives the verification harness read-only access to the representation of the structures.
+
+// VerifQueueState is a snapshot of the representation of a Queue created by NewQueue.
+type VerifQueueState[T any] struct {
+	NodeSize   int
+	ListSize   int
+	FrontIndex int
+	RearIndex  int
+	// Blocks are copies of the blocks reachable from frontNode, in order (empty when frontNode is nil).
+	Blocks [][]T
+	// RearPos is the position of rearNode in Blocks; -1 when rearNode is nil;
+	// -2 when rearNode is not reachable from frontNode (a stale pointer).
+	RearPos int
+}
+
+// VerifQueueDump returns a snapshot of q; ok is false if q was not created by NewQueue.
+func VerifQueueDump[T any](q Queue[T]) (st VerifQueueState[T], ok bool) {
+	aq, ok := q.(*arrayQueue[T])
+	if !ok {
+		return st, false
+	}
+
+	st.NodeSize, st.ListSize = aq.nodeSize, aq.listSize
+	st.FrontIndex, st.RearIndex = aq.frontIndex, aq.rearIndex
+	st.RearPos = -2
+	if aq.rearNode == nil {
+		st.RearPos = -1
+	}
+
+	for n, i := aq.frontNode, 0; n != nil; n, i = n.next, i+1 {
+		b := make([]T, len(n.block))
+		copy(b, n.block)
+		st.Blocks = append(st.Blocks, b)
+		if n == aq.rearNode {
+			st.RearPos = i
+		}
+	}
+
+	return st, true
+}
+
+// VerifStackState is a snapshot of the representation of a Stack created by NewStack.
+type VerifStackState[T any] struct {
+	NodeSize int
+	ListSize int
+	TopIndex int
+	// Blocks are copies of the blocks reachable from topNode along next (empty when topNode is nil).
+	Blocks [][]T
+}
+
+// VerifStackDump returns a snapshot of s; ok is false if s was not created by NewStack.
+func VerifStackDump[T any](s Stack[T]) (st VerifStackState[T], ok bool) {
+	as, ok := s.(*arrayStack[T])
+	if !ok {
+		return st, false
+	}
+
+	st.NodeSize, st.ListSize, st.TopIndex = as.nodeSize, as.listSize, as.topIndex
+	for n := as.topNode; n != nil; n = n.next {
+		b := make([]T, len(n.block))
+		copy(b, n.block)
+		st.Blocks = append(st.Blocks, b)
+	}
+
+	return st, true
+}
+
+// VerifSoftQueueDump returns the cursors of q; ok is false if q was not created by NewSoftQueue.
+func VerifSoftQueueDump[T any](q SoftQueue[T]) (front, rear, length int, ok bool) {
+	sq, ok := q.(*softQueue[T])
+	if !ok {
+		return 0, 0, 0, false
+	}
+
+	return sq.front, sq.rear, len(sq.list), true
+}
